@@ -1404,11 +1404,12 @@ class C09(Prop):
 class C01(Prop):
     id = "C01"
     module = "C01"
-    theorems = ["C01_plain_count", "C01_decode_local", "C01_decoded_fixed_point", "C01_counts_ok", "C01_accepted_decodes"]
+    theorems = ["C01_plain_count", "C01_decode_local", "C01_decoded_fixed_point", "C01_counts_ok", "C01_accepted_decodes", "C01_layouts_fit", "C01_numbers_fit", "C01_build_decodes"]
     partial_note = ("partial: for the 55 plain layouts (fields, structs, the three list forms, descriptor strings) it is proved that every body the encoder accepts decodes (never an error) "
                     "to a value that is a fixed point of encode-then-decode, and that a body decoded from any buffer is such a fixed point (the encoder accepts it, writes as many bits as were read, "
-                    "touches no earlier bit, decoding gives the same value). Byte-for-byte equality of the re-encoded frame for values the encoder wraps or saturates, the frame wrapper "
-                    "(number, length, CRC) and the MSM / SSR bias / 1230 / free-text layouts are covered by the correspondence and the ROUNDTRIP, ROUNDTRIPH and REDECODE probes only")
+                    "touches no earlier bit, decoding gives the same value); and at the public API: every frame build_message returns for such a message, from any builder history, is accepted by "
+                    "MessageFrame::new, carries the message number and get_message returns a typed message of that number (never Corrupt/Empty/MsgNotSupported). "
+                    "Byte-for-byte equality of the re-encoded frame for values the encoder wraps or saturates and the MSM / SSR bias / 1230 / free-text layouts are covered by the correspondence and the ROUNDTRIP, ROUNDTRIPH and REDECODE probes only")
     rule = ("ROUNDTRIP (E m, D(E m), E(D(E m)), D(E(D(E m)))) on generated messages of all types: on-grid and off-grid reals, boundary and out-of-range integers, NaN/inf, "
             "absent/present optionals, every list length class, permuted MSM lists, duplicate keys, unrecognised bias signals, arbitrary text; REDECODE (D f, E(D f), D(E(D f))) on "
             "CRC-valid frames with random payloads for every number; non-trivial = distinct operations whose first build / decode succeeds")
